@@ -653,6 +653,11 @@ fn forked<F: FnOnce() -> String>(f: F) -> String {
         }
         if pid == 0 {
             libc::close(fds[0]);
+            // the runtime's "has overflowed its stack" message must not reach the result stream
+            let devnull = libc::open(b"/dev/null\0".as_ptr() as *const libc::c_char, libc::O_WRONLY);
+            if devnull >= 0 {
+                libc::dup2(devnull, 2);
+            }
             let r = match std::panic::catch_unwind(std::panic::AssertUnwindSafe(f)) {
                 Ok(s) => s,
                 Err(_) => "PANIC".to_string(),
